@@ -330,8 +330,10 @@ func eqArchive(a, b *xt.Archive) string {
 	return ""
 }
 
-func runOne(file string, update bool, style tsh.Style, setupCd bool) *tsh.RecT {
-	p := testscript.Params{Files: []string{file}, UpdateScripts: update}
+func runOne(file string, update bool, style tsh.Style, setupCd, uniqueNames bool) *tsh.RecT {
+	// (entry names are unique in every generated archive, so requiring that changes nothing - but
+	// the parameter travels with the run, and the rewrite of the script must not depend on it)
+	p := testscript.Params{Files: []string{file}, UpdateScripts: update, RequireUniqueNames: uniqueNames, ContinueOnError: false}
 	if setupCd {
 		p.Setup = func(env *testscript.Env) error {
 			d := filepath.Join(env.WorkDir, "startdir")
@@ -354,7 +356,7 @@ func runOne(file string, update bool, style tsh.Style, setupCd bool) *tsh.RecT {
 func main() {
 	tsh.Main("C16", "exploration", 10*time.Minute, func(r *vlib.Run) {
 		run = r
-		r.Rule("scripts with 2-6 golden entries (some nested names) plus a data entry; actual contents come from stdout, stderr or a file and are drawn from empty / newline-terminated / CRLF / invalid UTF-8 / '>'-prefixed / no-final-newline / marker-line contents; goldens match or not, some are compared twice (last actual wins), interleaved with '! cmp', matching 'cmpenv' and comparisons against files created at run time; a quarter of the scripts start in $WORK/startdir because Params.Setup moved Env.Cd there (archive entries are then spelled ../name or $WORK/name); 10% dedicated scenarios in which the only mismatch must not be repaired (cmpenv, file outside the archive, '! cmp' of equal files), 10% with content that cannot be quoted. Non-trivial = distinct sequence of (update content / match / other) kinds with at least one update or a dedicated scenario.")
+		r.Rule("scripts with 2-6 golden entries (some nested names) plus a data entry; actual contents come from stdout, stderr or a file and are drawn from empty / newline-terminated / CRLF / invalid UTF-8 / '>'-prefixed / no-final-newline / marker-line contents; goldens match or not, some are compared twice (last actual wins), interleaved with '! cmp', matching 'cmpenv' and comparisons against files created at run time; a third of the runs set Params.RequireUniqueNames; a quarter of the scripts start in $WORK/startdir because Params.Setup moved Env.Cd there (archive entries are then spelled ../name or $WORK/name); 10% dedicated scenarios in which the only mismatch must not be repaired (cmpenv, file outside the archive, '! cmp' of equal files), 10% with content that cannot be quoted. Non-trivial = distinct sequence of (update content / match / other) kinds with at least one update or a dedicated scenario.")
 		r.Assume("content that has marker lines and no final newline (or invalid UTF-8 with marker lines) cannot be represented by any implementation: for it only 'the script file is not corrupted' is asserted")
 		base := vlib.Scratch()
 		rng := r.Rand("scripts")
@@ -366,7 +368,7 @@ func main() {
 			os.MkdirAll(dir, 0o777)
 			file := filepath.Join(dir, g.name+".txt")
 			os.WriteFile(file, []byte(g.text), 0o666)
-			sub := runOne(file, true, tsh.Style(i%2), g.setupCd)
+			sub := runOne(file, true, tsh.Style(i%2), g.setupCd, i%3 == 1)
 			r.Eval(1)
 			if g.updates > 0 || g.wantFail {
 				r.Distinct(g.sig)
@@ -452,7 +454,7 @@ func main() {
 				}
 				if g.rerunPasses {
 					nRerun++
-					sub2 := runOne(file, false, tsh.Style((i+1)%2), g.setupCd)
+					sub2 := runOne(file, false, tsh.Style((i+1)%2), g.setupCd, i%3 == 2)
 					again, _ := os.ReadFile(file)
 					if sub2 == nil || sub2.Verdict() != "pass" {
 						lg := ""
